@@ -155,3 +155,7 @@ impl VClone for String { #[verifier::external_body] fn vclone(&self) -> (r: Self
 // `unreachable!()` / `unreachable_unchecked()` are rewritten to vstd's `unreached()` (requires false):
 // reaching one is a failed proof obligation.
 pub use vstd::pervasive::unreached;
+
+/// `Rc::ptr_eq`: the same allocation holds one value (nothing is promised when it answers false)
+pub assume_specification<T: ?Sized, A: std::alloc::Allocator>[Rc::<T, A>::ptr_eq](a: &Rc<T, A>, b: &Rc<T, A>) -> (r: bool)
+    ensures r ==> a == b;
